@@ -496,6 +496,39 @@ def const_eval(e, repo=None, mod=None, depth=0):
     return None
 
 
+TD_FIELDS = ('days', 'seconds', 'microseconds', 'milliseconds', 'minutes',
+             'hours', 'weeks')
+TD_US = {'days': 86400 * 10 ** 6, 'seconds': 10 ** 6, 'microseconds': 1,
+         'milliseconds': 1000, 'minutes': 60 * 10 ** 6,
+         'hours': 3600 * 10 ** 6, 'weeks': 7 * 86400 * 10 ** 6}
+
+
+def timedelta_const(e, repo, mod, depth=0):
+    """The length, in microseconds, of a constant datetime.timedelta(...)
+    expression (or a module constant bound to one); None otherwise."""
+    if isinstance(e, (ast.Name, ast.Attribute)) and depth < 5:
+        d = repo.resolve(mod, e)
+        tgt = repo.lookup(d) if d else None
+        if isinstance(tgt, tuple) and tgt[0] == 'const':
+            return timedelta_const(tgt[2], repo, tgt[1], depth + 1)
+        return None
+    if isinstance(e, ast.Call) and repo.resolve(mod, e.func) == \
+            'datetime.timedelta':
+        total = Fraction(0)
+        for i, a in enumerate(e.args):
+            c = const_eval(a, repo, mod)
+            if c is None or i >= len(TD_FIELDS):
+                return None
+            total += c * TD_US[TD_FIELDS[i]]
+        for k in e.keywords:
+            c = const_eval(k.value, repo, mod)
+            if c is None or k.arg not in TD_US:
+                return None
+            total += c * TD_US[k.arg]
+        return total
+    return None
+
+
 def check_units(repo, rep):
     mod = repo.module(DT)
     f = mod.func('microseconds')
@@ -524,6 +557,13 @@ def check_units(repo, rep):
         elif isinstance(e, ast.Attribute) and isinstance(
                 e.value, ast.Name) and e.value.id == ts:
             coef[e.attr] = coef.get(e.attr, 0) + k
+        elif isinstance(e, ast.BinOp) and isinstance(e.op, ast.FloorDiv) \
+                and isinstance(e.left, ast.Name) and e.left.id == ts and \
+                timedelta_const(e.right, repo, mod) == 1:
+            # timedelta // one microsecond: exact integer arithmetic on the
+            # normalised (days, seconds, microseconds) triple
+            for a in ('days', 'seconds', 'microseconds'):
+                coef[a] = coef.get(a, 0) + k * TD_US[a]
         else:
             coef['?'] = 1
     if v is not None:
